@@ -21,6 +21,7 @@ pub enum Reset {
 pub enum Chunk {
     Raw {
         reset_dict: bool,
+        #[serde(with = "crate::gen::bytes::hexser")]
         data: Vec<u8>,
     },
     Lzma {
